@@ -636,6 +636,38 @@ fn bitvec_reads(c: &mut Case, len: usize, pat: Pattern, g: Garbage, spare: usize
         c.check("eq", view == clean && clean == view, || format!("slice-backed dirty != clean; {}", what));
     }
     c.check("read_only", AsRef::<[usize]>::as_ref(&b) == &words[..], || format!("read operations changed the storage; {}", what));
+    // growth over dirty storage: elements added by resize / push / extend hold the
+    // requested values, whatever the spare bits and words of the backend held
+    for kind in 0..4usize {
+        let grow = [1usize, 63, 64, 130][c.rng().random_range(0..4)] + c.rng().random_range(0..3);
+        let mut d = unsafe { BitVec::from_raw_parts(words.clone(), len) };
+        let mut exp = m.clone();
+        let opname = ["grow_resize_false", "grow_resize_true", "grow_push", "grow_extend"][kind];
+        let r = catch(|| match kind {
+            0 => d.resize(len + grow, false),
+            1 => d.resize(len + grow, true),
+            2 => {
+                for i in 0..grow {
+                    d.push(i % 3 == 0)
+                }
+            }
+            _ => d.extend((0..grow).map(|i| i % 5 == 1)),
+        });
+        match kind {
+            0 => exp.resize(len + grow, false),
+            1 => exp.resize(len + grow, true),
+            2 => exp.extend((0..grow).map(|i| i % 3 == 0)),
+            _ => exp.extend((0..grow).map(|i| i % 5 == 1)),
+        }
+        if let Err(p) = r {
+            c.fail(opname, "panic", &p, &format!("{} by {} panicked; {}", opname, grow, what));
+            continue;
+        }
+        let got: Vec<bool> = d.iter().collect();
+        c.check(opname, got == exp && d.count_ones() == exp.iter().filter(|x| **x).count(), || {
+            format!("{} by {} elements over dirty storage: contents differ from the model at {:?} (count_ones {}); {}", opname, grow, got.iter().zip(exp.iter()).position(|(a, b)| a != b), d.count_ones(), what)
+        });
+    }
     // atomic form
     let mut a: AtomicBitVec = b.into();
     let got: Vec<bool> = (0..len).map(|i| a.get(i, Ordering::Relaxed)).collect();
